@@ -402,6 +402,20 @@ func directLoops(body ast.Node) []ast.Stmt {
 }
 
 
+func lemmaParamNames(list string) ([]string, error) {
+	e, err := parser.ParseExpr("func(" + list + "){}")
+	if err != nil {
+		return nil, fmt.Errorf("lemma parameter list %q does not parse: %v", list, err)
+	}
+	var out []string
+	for _, f := range e.(*ast.FuncLit).Type.Params.List {
+		for _, nm := range f.Names {
+			out = append(out, nm.Name)
+		}
+	}
+	return out, nil
+}
+
 // collectParams finds the free identifiers of expr that denote parameters,
 // results or locals of the function at site, with their printed types.
 func collectParams(expr ast.Expr, site *funcSite, scope *types.Scope, pkgScope *types.Scope, pos token.Pos, g *genCtx) ([]ClauseParam, []string) {
@@ -580,6 +594,26 @@ func generateClauses(L *Loaded, root *packages.Package, cf *ContractFile) (strin
 	pkgScope := root.Types.Scope()
 	for _, fname := range cf.Order {
 		c := cf.Contracts[fname]
+		if strings.HasPrefix(fname, "lemma:") {
+			pnames, err := lemmaParamNames(c.LemmaParams)
+			if err != nil {
+				return "", fmt.Errorf("verif_contracts.go:%d: %v", c.Line, err)
+			}
+			for _, cl := range c.AllClauses() {
+				n++
+				cl.GoName = fmt.Sprintf("verif_cl_%d", n)
+				if _, err := parser.ParseExpr(cl.Expr); err != nil {
+					return "", fmt.Errorf("verif_contracts.go:%d: clause %s does not parse: %v", cl.Line, cl.Label, err)
+				}
+				cl.Params = nil
+				for _, pn := range pnames {
+					cl.Params = append(cl.Params, ClauseParam{Name: pn, Kind: "name"})
+				}
+				fmt.Fprintf(&g.b, "// clause %s %s %s (verif_contracts.go:%d): %s\n", fname, cl.Kind, cl.Label, cl.Line, cl.Src)
+				fmt.Fprintf(&g.b, "func %s(%s) bool {\n\treturn %s\n}\n\n", cl.GoName, c.LemmaParams, cl.Expr)
+			}
+			continue
+		}
 		site, err := findFuncSite(root, fname)
 		if err != nil {
 			return "", fmt.Errorf("verif_contracts.go:%d: %v", c.Line, err)
